@@ -293,8 +293,31 @@ def r4_constants(P, rep, ctx):
     fi = P.func(f"{C}.SchemaBase.override_consts")
     decos = [norm(d) for d in fi.node.decorator_list]
     rep.check(decos == ["root_validator(pre=True)"], "C12.R4", fi.qual, "override_consts is a pre root validator", fi.loc(), construct=f"decorators {decos}", message=f"override_consts is decorated with {decos}, not root_validator(pre=True): constants are not forced before field validation")
+    of = F(ctx, fi)
+    vp = fi.params[1]
+    upd_ = of.calls(f"{vp}.update(cls.__constants__)")
+    rets_ = [of.x_at(i, v) for i, v in of.returns() if v is not None]
+    in_place = bool(upd_) and of.hit_before(of.g.exit, nodes=upd_) and bool(rets_) and all(r == vp for r in rets_)
+    fresh_ = bool(rets_) and all(r in (f"{{**{vp}, **cls.__constants__}}", f"dict({vp}, **cls.__constants__)", f"{vp} | cls.__constants__") for r in rets_)
+    # nothing may make the update conditional (e.g. "all constant keys already present")
+    cond_ = [t for t in of.g.nodes if t.kind == "test"]
     body = [norm(b) for b in fi.node.body if not (isinstance(b, ast.Expr) and isinstance(b.value, ast.Constant))]
-    rep.check(body == ["values.update(cls.__constants__)", "return values"], "C12.R4", fi.qual, "override_consts overwrites the input with the declared constants", fi.loc(), construct="override_consts body", message=f"override_consts body is {body}")
+    rep.check((in_place or fresh_) and not cond_, "C12.R4", fi.qual, "override_consts overwrites the input with the declared constants", fi.loc(), construct="override_consts body", message=f"override_consts body is {body}")
+    # JSON-LD presets: every declared value except None becomes a constant (0, False, "" and empty collections included)
+    wk = P.func("schema.ld.with_key_prefix")
+    wf = F(ctx, wk)
+    okw = False
+    for _, v in wf.returns():
+        dfl = wf.dict_filter(v) if v is not None else None
+        if dfl is None and isinstance(v, ast.DictComp) and len(v.generators) == 1 and isinstance(v.generators[0].target, ast.Tuple):
+            # keys are rewritten (prefix): look at the filter of the comprehension directly
+            gen = v.generators[0]
+            vv = norm(gen.target.elts[1])
+            conds = [c for i in gen.ifs for c in MM.conjuncts(i)]
+            kept = ast.BoolOp(op=ast.And(), values=conds) if len(conds) > 1 else conds[0] if conds else ast.Constant(value=True)
+            okw = wf.x(gen.iter) == f"{wk.params[1]}.items()" and MM.equivalent(kept, f"{vv} is not None") and norm(v.value) == vv
+    rep.check(okw, "C12.R4", wk.qual, "every preset except None is declared as constant (falsy values are kept)", wk.loc(), construct="with_key_prefix filter",
+              message="with_key_prefix drops presets by truthiness (or by another test than `is not None`): JSON-LD constants such as 0, False or [] are never declared and are missing from every serialised form")
     fi = P.func(f"{C}.SchemaMagic.__init__")
     g = ctx.cfg(fi)
     fresh = [n.idx for n in g.nodes if n.kind == "stmt" and norm(n.stmt) in ("self.__constants__ = {}", "self.__constants__ = dict()")]
